@@ -44,5 +44,39 @@ impl Producer {
 //@@ end
 }
 
+// ---------------------------------------------------------------------------------------------------------------
+// the waiting side: SenderFlowState::consume (link/state.rs)
+//@@ trusted tokio's Notify as used here: notify_waiters() wakes exactly the Notified futures that EXIST when it is called (it stores no permit; tokio 1.53 docs: "The Notified future is guaranteed to receive wakeups from notify_waiters() as soon as it has been created, even if it has not yet been polled"). The stand-ins count the credit checks performed; a Notified future remembers the count at its creation, and awaiting it (R3b: `.await` kept as the stand-in call `.await_s()`, given the current count as a ghost argument by R9) requires that it was created BEFORE the last check -- otherwise a grant applied between that check and the creation of the future is missed (lost wake-up)
+//@@ trusted consume_link_credit (the check itself: unit LINKFLOW) is reduced to a stand-in that succeeds or not; `&self` is verified as `&mut self` so that the ghost counter can advance (sequential reasoning only)
+pub struct NotifiedS { pub created_after_checks: Ghost<nat> }
+impl NotifiedS {
+    #[verifier::external_body]
+    pub fn await_s(self, Ghost(checks_now): Ghost<nat>)
+        requires self.created_after_checks@ < checks_now,      // [C08.wait.registered-before-check] the future that will deliver the wake-up exists before the credit check whose failure sends the task to sleep: a grant that lands anywhere after that check is not lost
+    { unimplemented!() }
+}
+#[verifier::external_body]
+pub struct Tag { _p: u8 }
+pub struct InsufficientCredit {}
+pub struct SenderFlowState { pub checks: Ghost<nat> }
+impl SenderFlowState {
+    #[verifier::external_body]
+    pub fn notified_s(&self) -> (r: NotifiedS) ensures r.created_after_checks@ == self.checks@ { unimplemented!() }
+    #[verifier::external_body]
+    pub fn check_s(&mut self, item: u32) -> (r: Result<Tag, InsufficientCredit>) ensures final(self).checks@ == old(self).checks@ + 1 { unimplemented!() }
+
+//@@ fn file=fe2o3-amqp/src/link/state.rs impl=`impl Consume for SenderFlowState` name=consume
+//@@ awaitcall
+//@@ selfmut
+//@@ attr #[verifier::exec_allows_no_decreases_clause]
+//@@ ret Tag
+//@@ subst `self.notifier.notified()` => `self.notified_s()` rule=R9
+//@@ subst `consume_link_credit(&self.state().lock, item)` => `self.check_s(item)` rule=R9
+//@@ subst `.await_s()` => `.await_s(Ghost(self.checks@))` rule=R9
+//@@ spec
+    ensures true,
+//@@ end
+}
+
 } // verus!
 fn main() {}
